@@ -143,19 +143,65 @@ int64_t vf_syscall(uint64_t nr, uint64_t a1, uint64_t a2, uint64_t a3, uint64_t 
 }
 
 /* --- memory --------------------------------------------------------------------------------- */
+uint64_t vf_last_malloc_a, vf_last_malloc_n, vf_last_free_a;
+uint64_t vf_last_malloc_addr(void) { return vf_last_malloc_a; }
+uint64_t vf_last_malloc_size(void) { return vf_last_malloc_n; }
+uint64_t vf_last_free_addr(void) { return vf_last_free_a; }
+#ifdef VF_ADDR_AWARE
+/* Address-aware allocator: blocks are carved out of one arena at symbolic offsets that are multiples
+ * of 16 -- all that malloc / plain operator new promise -- so the low bits of ptrtoint are meaningful
+ * (the arena base has integer value with zero low bits in CBMC's pointer encoding). */
+#ifndef VF_ARENA
+#define VF_ARENA (1u << 18)
+#endif
+char vf_arena[VF_ARENA];
+uint64_t vf_arena_next;
+uint64_t vf_aa_live[8];
+uint64_t vf_aa_nlive;
+uint64_t vf_aa_allocs, vf_aa_frees;
+#ifdef VF_AA_DYNAMIC
+/* variant without a static arena: one fresh object per block, placed at a symbolic 16-aligned
+ * offset inside it (object bases have zero low bits in CBMC's pointer encoding) */
+void *vf_malloc(uint64_t n) {
+  uint64_t gap = nondet_u64();
+  __CPROVER_assume(gap % 16 == 0 && gap < (1u << 17));
+  char *o = __CPROVER_allocate(n + gap, 0);
+  __CPROVER_assume(o != 0);
+  vf_aa_allocs++;
+  vf_last_malloc_a = (uint64_t)(o + gap);
+  vf_last_malloc_n = n;
+  return (void *)(o + gap);
+}
+#else
+void *vf_malloc(uint64_t n) {
+  uint64_t gap = nondet_u64();
+  __CPROVER_assume(gap % 16 == 0 && gap < (1u << 17));
+  uint64_t off = vf_arena_next + gap;
+  uint64_t sz = (n + 15) & ~(uint64_t)15;
+  __CPROVER_assume(off + sz <= VF_ARENA && off + sz >= off);
+  vf_arena_next = off + sz;
+  vf_aa_allocs++;
+  vf_last_malloc_a = (uint64_t)(vf_arena + off);
+  vf_last_malloc_n = n;
+  return (void *)(vf_arena + off);
+}
+#endif
+void vf_free(void *p) { if (p) vf_aa_frees++; vf_last_free_a = (uint64_t)p; }
+#else
 void *vf_malloc(uint64_t n) {
   void *p = __CPROVER_allocate(n, 0);
   __CPROVER_assume(p != 0);
   return p;
 }
+void vf_free(void *p) { free(p); }
+#endif
 void *vf_malloc_nt(uint64_t n, void *nt) { return vf_malloc(n); }
 void *vf_malloc_al(uint64_t n, uint64_t al) { return vf_malloc(n); }
 void *vf_aligned_alloc(uint64_t al, uint64_t n) { return vf_malloc(n); }
 int vf_posix_memalign(void **out, uint64_t al, uint64_t n) { *out = vf_malloc(n); return 0; }
 void *vf_calloc(uint64_t a, uint64_t b) { void *p = __CPROVER_allocate(a * b, 1); __CPROVER_assume(p != 0); return p; }
-void vf_free(void *p) { free(p); }
-void vf_free_sized(void *p, uint64_t n) { free(p); }
-void vf_free_sized3(void *p, uint64_t n, uint64_t a) { free(p); }
+void vf_free_sized(void *p, uint64_t n) { vf_free(p); }
+void vf_free_sized3(void *p, uint64_t n, uint64_t a) { vf_free(p); }
 void vf_abort(void) { __CPROVER_assert(0, "ub: abort/terminate reached"); __CPROVER_assume(0); }
 void vf_abort1(void *a) { vf_abort(); }
 void vf_abort1i(int a) { vf_abort(); }
